@@ -97,6 +97,17 @@ def pair_st(draw, tier):
         top, bottom = bottom, top
     if draw(st.sampled_from(range(6))) == 0:
         top, bottom = draw(G.flag_focus(top, bottom, established=True))
+    if draw(st.integers(0, 19)) == 11:
+        # a mask made of the highest k bits (subnet mask typed as wildcard) above an ordinary address below
+        from checks.c13 import typo_mask_pair
+
+        wide, plain = draw(typo_mask_pair())
+        side = draw(st.sampled_from(["src", "dst"]))
+        other = "dst" if side == "src" else "src"
+        top[side], bottom[side] = wide, G.native_addr(G.addr_pair(plain), platform)
+        bottom[other] = dict(top[other])
+        bottom["action"], bottom["proto"], bottom["pn"] = top["action"], top["proto"], top["pn"]
+        bottom["sp"], bottom["dp"], bottom["flags"] = top.get("sp"), top.get("dp"), list(top.get("flags") or [])
     if draw(st.sampled_from(range(7))) == 0:
         # port sets equal or one port apart at an end of a run / of the port space, in every spelling
         top, bottom = draw(G.port_focus(top, bottom, platform))
